@@ -5,40 +5,29 @@ From Coq Require Import ZArith List Bool Arith Lia.
 Import ListNotations.
 Require Import Grist.Model.RefIndex Grist.Proofs.RefIndex_proofs Grist.Proofs.RefIndex_removal.
 
-Definition no_clear (ops : list op) : bool := forallb (fun o => negb (is_clear o)) ops.
-
-(* The reverse index of a reference column is EXACTLY the reverse of its cells, after any sequence of
-   set / unset / copy_from_column / growto on a new column: for every target t the set kept for t is the
-   increasing list of the rows whose cell refers to t.  No operation raises. *)
-Theorem inverse_map_exact : forall hack k ops, no_clear ops = true ->
+(* The reverse index of a reference column is EXACTLY the reverse of its cells after ANY sequence of
+   set / unset / copy_from_column / growto / clear on a new column: for every target t the set kept for t is the
+   increasing list of the rows whose cell refers to t.  No operation raises.
+   (clear = BaseReferenceColumn.clear, which since /repo commit 474dc3f also clears the relation.) *)
+Theorem inverse_map_exact : forall hack k ops,
   exists c, run hack k ops = Ok c /\
-    forall t, inv_get t (rc_inv c) = filter (fun r => memZ t (refs c r)) (seq 0 (length (rc_data c))).
-Proof.
-  intros hack k ops H.
-  destruct (run_from_ok hack false ops (col_new k) (col_new_ok k) (or_intror H)) as [c [E [Hok _]]].
-  exists c. split; [exact E|]. apply inv_ok_exact. exact Hok.
-Qed.
-
-(* The full statement (arbitrary sequences INCLUDING clear) is false for the code as it is: BaseColumn.clear is
-   not overridden by BaseReferenceColumn and leaves the relation's entries behind. *)
-Definition inverse_map_exact_full : Prop := forall hack k ops,
-  exists c, run hack k ops = Ok c /\
-    forall t, inv_get t (rc_inv c) = filter (fun r => memZ t (refs c r)) (seq 0 (length (rc_data c))).
-
-Theorem inverse_map_exact_refuted_clear : ~ inverse_map_exact_full.
-Proof.
-  intros H. destruct (H (fun _ => None) KRef [OSet 1 (CInt 1); OClear]) as [c [E Hc]].
-  vm_compute in E. inversion E; subst c. specialize (Hc 1%Z). vm_compute in Hc. discriminate.
-Qed.
-
-(* With the proposed repair (clear also resets the relation) the full statement holds. *)
-Theorem inverse_map_exact_with_fixed_clear : forall hack k ops,
-  exists c, run_from hack true (col_new k) ops = Ok c /\
     forall t, inv_get t (rc_inv c) = filter (fun r => memZ t (refs c r)) (seq 0 (length (rc_data c))).
 Proof.
   intros hack k ops.
   destruct (run_from_ok hack true ops (col_new k) (col_new_ok k) (or_introl eq_refl)) as [c [E [Hok _]]].
   exists c. split; [exact E|]. apply inv_ok_exact. exact Hok.
+Qed.
+
+(* Regression example (repaired by 474dc3f, finding C10-clear-keeps-reverse-index): with the clear of the old code
+   (run_old: BaseColumn.clear, which left the relation's entries behind) the same statement is false. *)
+Definition inverse_map_exact_old_code : Prop := forall hack k ops,
+  exists c, run_old hack k ops = Ok c /\
+    forall t, inv_get t (rc_inv c) = filter (fun r => memZ t (refs c r)) (seq 0 (length (rc_data c))).
+
+Example inverse_map_exact_refuted_clear : ~ inverse_map_exact_old_code.
+Proof.
+  intros H. destruct (H (fun _ => None) KRef [OSet 1 (CInt 1); OClear]) as [c [E Hc]].
+  vm_compute in E. inversion E; subst c. specialize (Hc 1%Z). vm_compute in Hc. discriminate.
 Qed.
 
 (* doBulkRemoveRecord on a table T whose rows are wd_rows, in a world of data Ref/RefList columns of T (w_own) and
@@ -73,23 +62,24 @@ Theorem C10_removal_histories : forall hack l wd, world_ok wd ->
   exists wd', remove_seq hack wd l = Ok wd' /\ world_ok wd'.
 Proof. intros hack l wd H. apply remove_seq_ok. exact H. Qed.
 
-(* the hypothesis world_ok is what clear-free column histories give *)
+(* the hypothesis world_ok is what every column history gives *)
 Theorem world_ok_from_runs : forall hack k ops c (trows rows : list nat) (own back : bool),
-  no_clear ops = true -> run hack k ops = Ok c ->
+  run hack k ops = Ok c ->
   (forall r, refs c r <> [] -> In r (if own then trows else rows)) ->
   wcol_ok trows {| w_col := c; w_rows := rows; w_own := own; w_back := back |}.
 Proof.
-  intros hack k ops c trows rows own back Hn E Hr. split.
-  - cbn [w_col]. apply (run_inv_ok hack k ops c Hn E).
+  intros hack k ops c trows rows own back E Hr. split.
+  - cbn [w_col]. apply (run_inv_ok hack k ops c E).
   - exact Hr.
 Qed.
 
-(* Without an exact index (what a clear leaves behind) the cleanup goes wrong: a Ref cell pointing at a row that
-   is NOT removed is reset to 0, and a RefList cell that has become None makes the removal raise TypeError. *)
-Definition stale_ref : res refcol := run (fun _ => None) KRef [OSet 1 (CInt 1); OClear; OSet 1 (CInt 2)].
-Definition stale_reflist : res refcol := run (fun _ => None) KRefList [OSet 1 (CList [1%Z]); OClear; OGrow 2].
+(* Regression example (repaired by 474dc3f): without an exact index (what the clear of the OLD code left behind) the
+   cleanup goes wrong: a Ref cell pointing at a row that is NOT removed is reset to 0, and a RefList cell that has
+   become None makes the removal raise TypeError. *)
+Definition stale_ref : res refcol := run_old (fun _ => None) KRef [OSet 1 (CInt 1); OClear; OSet 1 (CInt 2)].
+Definition stale_reflist : res refcol := run_old (fun _ => None) KRefList [OSet 1 (CList [1%Z]); OClear; OGrow 2].
 
-Theorem C10_refuted_stale_index :
+Example C10_refuted_stale_index :
   (exists c wd', stale_ref = Ok c /\
      remove_rows (fun _ => None)
         {| wd_rows := [1; 2]; wd_cols := [{| w_col := c; w_rows := [1]; w_own := false; w_back := true |}] |} [1]
@@ -127,13 +117,13 @@ Proof.
   unfold world_ok. cbn [wd_rows wd_cols].
   apply Forall_cons; [split|apply Forall_cons; [split|apply Forall_nil]]; cbn [w_col w_rows w_own col_rows].
   - match goal with
-    | |- inv_ok ?c => exact (proj1 (run_inv_ok (fun _ => None) KRef [OSet 1 (CInt 1)] c eq_refl
+    | |- inv_ok ?c => exact (proj1 (run_inv_ok (fun _ => None) KRef [OSet 1 (CInt 1)] c
                                       ltac:(vm_compute; reflexivity)))
     end.
   - intros r. do 2 (destruct r as [|r]; [vm_compute; intuition congruence|]).
     intros H; exfalso; apply H; apply refs_overflow; cbn [rc_data length]; lia.
   - match goal with
-    | |- inv_ok ?c => exact (proj1 (run_inv_ok (fun _ => None) KRefList [OSet 1 (CList [2; 1]%Z)] c eq_refl
+    | |- inv_ok ?c => exact (proj1 (run_inv_ok (fun _ => None) KRefList [OSet 1 (CList [2; 1]%Z)] c
                                       ltac:(vm_compute; reflexivity)))
     end.
   - intros r. do 2 (destruct r as [|r]; [vm_compute; intuition congruence|]).
@@ -149,7 +139,7 @@ Definition ex_self : res refcol := run (fun _ => None) KRef [OSet 1 (CInt 3); OS
 
 Ltac from_run k ops :=
   match goal with
-  | |- inv_ok ?c => exact (proj1 (run_inv_ok (fun _ => None) k ops c eq_refl ltac:(vm_compute; reflexivity)))
+  | |- inv_ok ?c => exact (proj1 (run_inv_ok (fun _ => None) k ops c ltac:(vm_compute; reflexivity)))
   end.
 Ltac past_end := intros H; exfalso; apply H; apply refs_overflow; cbn [rc_data length]; lia.
 
